@@ -117,6 +117,38 @@ def class_writers(tree, clsname):
     return res
 
 
+def class_level_mutables(tree, clsname):
+    """[(name, lineno, how)]: objects created once in a class body (or as an attrs default) and therefore shared
+    by all instances: `x = []` / `{}` / `set()` at class level, `attr.ib(default=[])`"""
+    out = []
+
+    def mutable(v):
+        if isinstance(v, (ast.List, ast.Dict, ast.Set, ast.ListComp, ast.DictComp, ast.SetComp)):
+            return True
+        return isinstance(v, ast.Call) and isinstance(v.func, ast.Name) and v.func.id in ('list', 'dict', 'set', 'defaultdict', 'OrderedDict', 'deque')
+    for node in tree.body:
+        if isinstance(node, ast.ClassDef) and node.name == clsname:
+            for item in node.body:
+                if isinstance(item, (ast.Assign, ast.AnnAssign)):
+                    v = item.value
+                    tg = item.targets[0] if isinstance(item, ast.Assign) else item.target
+                    nm = tg.id if isinstance(tg, ast.Name) else ast.unparse(tg)
+                    if v is None:
+                        continue
+                    if mutable(v):
+                        out.append((nm, item.lineno, 'class-level mutable object'))
+                    if isinstance(v, ast.Call) and ast.unparse(v.func) in ('attr.ib', 'attr.attrib', 'attrib', 'ib', 'attr.field', 'field'):
+                        for kw in v.keywords:
+                            if kw.arg == 'default' and mutable(kw.value):
+                                out.append((nm, item.lineno, 'attrs default is one shared mutable object'))
+                if isinstance(item, ast.FunctionDef):
+                    a = item.args
+                    for d in list(a.defaults) + [d for d in a.kw_defaults if d is not None]:
+                        if mutable(d):
+                            out.append((item.name, item.lineno, 'mutable parameter default'))
+    return out
+
+
 def module_state_mutations(tree):
     """[(function, name, lineno, how)]: module-level names mutated from inside functions"""
     modnames = set()
